@@ -33,6 +33,19 @@ func init() {
 // RunC09T: two loads overlap in (virtual) time on one store - one of them is given up by its caller
 // (deadline or fetch timeout) while blocks are still on their way, the other one has all the time it
 // needs and must rebuild exactly the log it was asked for, whatever the first one did.
+// vtSized: worlds loaded inside a synctest bubble stay below the fetcher's default concurrency (32 requests in
+// flight). Above it the fetch dispatcher waits for a slot while holding its mutex and a finished worker waits
+// for that mutex; a goroutine waiting for a sync.Mutex does not count as durably blocked, so the bubble never
+// becomes idle and virtual time never advances - a property of the bubble, not of the library (in real time
+// the other workers' reads complete and free slots). Long logs are loaded by the non-virtual-time engines.
+func vtSized(p *Profile) *Profile {
+	p.Weights[opBurst], p.Weights[opFan] = 0, 0
+	if p.MaxSteps > 30 {
+		p.MaxSteps = 30
+	}
+	return p
+}
+
 func RunC09T(r *Run) { runOverlappingLoads(r, "C09") }
 
 // C17T: the same bubble under C17 - an identifier the library returned must load to the state it was returned
@@ -43,7 +56,7 @@ func runOverlappingLoads(r *Run, prop string) {
 	if VTT == nil {
 		r.Harness(prop + "T needs the virtual-time worker binary")
 	}
-	w := BuildWorld(r, c09Profile())
+	w := BuildWorld(r, vtSized(c09Profile()))
 	w.ShareOpts = false // the two overlapping loads below are two callers: each has its own option values
 	for s := 0; s < 4; s++ {
 		r.T.Mark()
@@ -124,7 +137,7 @@ func RunC11T(r *Run) {
 	if VTT == nil {
 		r.Harness("C11T needs the virtual-time worker binary")
 	}
-	w := BuildWorld(r, sourceProfile("C11"))
+	w := BuildWorld(r, vtSized(sourceProfile("C11")))
 	for s := 0; s < 5; s++ {
 		r.T.Mark()
 		// the tape decides after each scenario whether another follows (0 = stop; an exhausted tape stops)
